@@ -114,15 +114,29 @@ func (s *faultStore) runWatched(quiet, max time.Duration, f func()) bool {
 	done := make(chan struct{})
 	s.touch()
 	go func() { defer close(done); f() }()
+	// The quiet period is counted in ticks the watchdog itself got (at most 25 ms of idle time per tick, and none for
+	// a tick that came late): on a starved machine (load average in the hundreds) the watchdog is delayed like the
+	// goroutines it watches, so the quiet period stretches instead of expiring while nothing could run.
+	const period = 25 * time.Millisecond
 	start := time.Now()
-	tick := time.NewTicker(25 * time.Millisecond)
+	tick := time.NewTicker(period)
 	defer tick.Stop()
+	var idle time.Duration
+	lastSeen := s.lastActivity.Load()
+	lastTick := time.Now()
 	for {
 		select {
 		case <-done:
 			return true
 		case <-tick.C:
-			idle := time.Duration(time.Now().UnixNano() - s.lastActivity.Load())
+			now := time.Now()
+			late := now.Sub(lastTick) > 3*period
+			lastTick = now
+			if a := s.lastActivity.Load(); a != lastSeen {
+				lastSeen, idle = a, 0
+			} else if !late {
+				idle += period
+			}
 			if idle > quiet || time.Since(start) > max {
 				return false
 			}
